@@ -602,6 +602,8 @@ pub fn parse_case(lines: &[&str], tls_mode: bool) -> Result<Case, (usize, String
                 seen_fault = true;
                 c.fault = parse_fault(rest).map_err(e)?;
             }
+            // the fault plan of the model's twin run (same byte offset, the model's own op index): not ours
+            "mfault" => {}
             "q" => c.q.push(parse_qline(rest, &mut aux).map_err(e)?),
             "p" => c.p.push(parse_pline(rest).map_err(e)?),
             "x" => c.x.push(parse_xline(rest, &mut aux).map_err(e)?),
